@@ -151,7 +151,14 @@ class Lexer:
                         for _ in range(4):
                             hex_chars += self._advance()
                     try:
-                        result.append(chr(int(hex_chars, 16)))
+                        # hex digits only (int() also takes signs, spaces and
+                        # underscores) and a code point chr() can represent
+                        if not hex_chars or hex_chars.strip("0123456789abcdefABCDEF"):
+                            raise ValueError(hex_chars)
+                        code_point = int(hex_chars, 16)
+                        if code_point > 0x10FFFF:
+                            raise ValueError(hex_chars)
+                        result.append(chr(code_point))
                     except ValueError:
                         raise JSSyntaxError(
                             f"Invalid unicode escape: \\u{hex_chars}",
